@@ -51,6 +51,20 @@ Fixpoint assoc_b {A} (l : list (bytes * A)) (k : bytes) : option A :=
   | (k', v) :: r => if bytes_eqb k' k then Some v else assoc_b r k
   end.
 
+Fixpoint index_of (v : bytes) (l : list bytes) (i : nat) : option nat :=
+  match l with
+  | [] => None
+  | x :: r => if bytes_eqb x v then Some i else index_of v r (S i)
+  end.
+
+(* how one body token is recorded: a parameter name becomes its positional slot, @entropy its own slot *)
+Definition slotify (params : list bytes) (t : token) : mtok :=
+  match t with
+  | TDir DEntropy => MEntropy
+  | TLabel LkGlobal v => match index_of v params 0 with Some i => MArg i | None => MTok t end
+  | _ => MTok t
+  end.
+
 (* ---- text formatting helpers ------------------------------------------------------------ *)
 Definition hexdigit (d : Z) : N := Z.to_N (if d <? 10 then 48 + d else 87 + d).
 Fixpoint radix_digits (fuel : nat) (base : Z) (n : Z) (acc : bytes) : bytes :=
@@ -645,12 +659,6 @@ Section Stmt.
       end
     end.
 
-  Fixpoint index_of (v : bytes) (l : list bytes) (i : nat) : option nat :=
-    match l with
-    | [] => None
-    | x :: r => if bytes_eqb x v then Some i else index_of v r (S i)
-    end.
-
   Fixpoint f_record (fuel : nat) (params : list bytes) (depth : nat) (acc : list mtok) (s : fstate)
     : outcome (list mtok * fstate) :=
     match fuel with
@@ -660,16 +668,13 @@ Section Stmt.
       match t with
       | None => Diag DkSyntax
       | Some (TComment | TNewline) => f_record f params depth acc s1
-      | Some (TDir DMacro as tk) => f_record f params (S depth) (acc ++ [MTok tk]) s1
+      | Some (TDir DMacro as tk) => f_record f params (S depth) (acc ++ [slotify params tk]) s1
       | Some (TDir DEndMacro as tk) =>
         match depth with
         | O => Ok (acc, s1)
-        | S d => f_record f params d (acc ++ [MTok tk]) s1
+        | S d => f_record f params d (acc ++ [slotify params tk]) s1
         end
-      | Some (TDir DEntropy) => f_record f params depth (acc ++ [MEntropy]) s1
-      | Some (TLabel LkGlobal v as tk) =>
-        f_record f params depth (acc ++ [match index_of v params 0 with Some i => MArg i | None => MTok tk end]) s1
-      | Some tk => f_record f params depth (acc ++ [MTok tk]) s1
+      | Some tk => f_record f params depth (acc ++ [slotify params tk]) s1
       end
     end.
 
